@@ -22,7 +22,7 @@ def consts(kind, c, emit, prop=None):
     s = "Size = %d MOO = %d AL = %d MaxTs = %d MaxEv = %d ChanCap = %d Reanchor = TRUE Emit = %s" % (
         c["size"], c["moo"], c["al"], c["maxts"], c["maxev"], c.get("chancap", 100), "TRUE" if emit else "FALSE")
     if kind == "sliding":
-        s += " Slide = %d LateAll = TRUE RegisterEarly = %s" % (c["slide"], "FALSE" if c.get("register_late") else "TRUE")
+        s += " Slide = %d LateAll = TRUE RegisterEarly = %s LateAtomic = %s" % (c["slide"], "FALSE" if c.get("register_late") else "TRUE", "FALSE" if c.get("late_one_by_one") else "TRUE")
     return s
 
 
@@ -158,6 +158,11 @@ def run_family(prop, tier, plan, free_plan, assumptions, mc_extra=(), post=None,
                 sampled = True
             for steps in steps_list:
                 n += 1
+                if c.get("closer") and rng.random() < 0.5:
+                    # the model's behaviour, step by step, and then the engine runs free: one more row far enough ahead passes the
+                    # watermark over every window of the earlier rows (whatever the forced schedule left behind must still come out)
+                    nid = len([st for st in steps if st["a"] == "add"]) + 1
+                    steps = steps + [{"a": "freerun"}, {"a": "add", "id": nid, "ts": c["maxts"] + c["size"] + c["moo"] + 1}]
                 sc = fit_ahead({"tr": n, "cfg": mkcfg(kind, c, rng), "steps": steps, "free": False})
                 scen[n] = sc
                 f.write(json.dumps(sc) + "\n")
@@ -322,7 +327,7 @@ def impl_binding(res, plan, scen, tr_path):
         kind, size, slide, moo, al = k
         consts = "Size = %d MOO = %d AL = %d MaxTs = 99 MaxEv = 12 ChanCap = 100 Reanchor = TRUE Emit = FALSE Dev = {}" % (size, moo, al)
         if kind == "sliding":
-            consts += " Slide = %d LateAll = TRUE RegisterEarly = TRUE" % slide
+            consts += " Slide = %d LateAll = TRUE RegisterEarly = TRUE LateAtomic = TRUE" % slide
         if kind == "session":
             consts = "T = %d MOO = %d AL = %d MaxTs = 99 MaxEv = 12 Keys = {\"a\",\"b\"} ChanCap = 100 LateAnyKey = FALSE KeepOlder = TRUE OnlyLate = FALSE DevMerge = TRUE DevStart = TRUE Emit = FALSE Dev = {}" % (size, moo, al)
         cfg = "SPECIFICATION Spec0\nCONSTANTS %s\nPOSTCONDITION AllConsumed\nCHECK_DEADLOCK FALSE\n" % consts
